@@ -57,6 +57,44 @@ def _pred_callees(closure, depth=0):
     return names
 
 
+def index_idiom(prog, f, idx, depth=0):
+    """('exact' | 'after-last' | None, predicate callees, source expr): how an insertion index is computed
+       exact      = number of leading elements satisfying the predicate (take_while(p).count(),
+                    position(!p).unwrap_or(len))
+       after-last = one past the last element satisfying it (rposition(p).map_or(0, |i| i + 1))"""
+    e = hir.peel(idx)
+    l = hir.local_of(e)
+    if l and depth < 3:
+        b = f.bindings().get(l[0])
+        if b and b["origin"][0] == "let" and b["origin"][1] is not None and not f.assignments_to(l[0]):
+            return index_idiom(prog, f, b["origin"][1], depth + 1)
+        return (None, set(), None)
+    if hir.is_call(e) and depth < 3:
+        g = prog.resolve_local(e)
+        if g is not None and g.body is not None:
+            from ..prov import return_exprs
+
+            rs = return_exprs(g.body)
+            if len(rs) == 1:
+                _PRED_CTX["fn"] = g
+                return index_idiom(prog, g, rs[0], depth + 1)
+    src, chain = _chain(e)
+    names = [c[0] for c in chain]
+    if names == ["iter", "take_while", "count"]:
+        cl = [a for a in chain[1][1]["args"] if hir.peel(a).get("k") == "Closure"]
+        return ("exact", _pred_callees(cl[0]) if cl else set(), src)
+    if names == ["iter", "rposition", "map_or"]:
+        cl = [a for a in chain[1][1]["args"] if hir.peel(a).get("k") == "Closure"]
+        mo = chain[2][1]["args"]
+        plus1 = False
+        if len(mo) == 2 and hir.lit_value(mo[0]) == 0 and hir.peel(mo[1]).get("k") == "Closure":
+            b_ = hir.peel(hir.peel(mo[1])["body"])
+            plus1 = b_.get("k") == "Binary" and b_["op"] == "Add" and 1 in (hir.lit_value(b_["l"]), hir.lit_value(b_["r"]))
+        if plus1:
+            return ("after-last", _pred_callees(cl[0]) if cl else set(), src)
+    return (None, set(), src)
+
+
 def run(check):
     R = "VALUESET"
     check.rule(R, "every Vec<Stmt>/Vec<ModuleItem>::insert(index, ..) of the build takes an index that is the count of leading statements satisfying Stmt::can_precede_directive (the whole directive prologue); an index drawn from a finite set of constants, or computed from Stmt::is_use_strict, cannot follow a longer prologue")
@@ -86,6 +124,16 @@ def run(check):
         os_ = pv.origins(f, idx)
         bad = []
         good = []
+        idiom, pcs, isrc = index_idiom(prog, f, idx)
+        _PRED_CTX["fn"] = f
+        if idiom == "after-last":
+            same_list = isrc is not None and (hir.place(isrc) or "?").split("#")[0].split(".")[-1] == (hir.place(n["recv"]) or "!").split("#")[0].split(".")[-1] or hir.local_of(isrc) is not None
+            if pcs == {"can_precede_directive"} and same_list:
+                preds_seen[role] = tuple(sorted(pcs))
+                check.ok(R, key, hir.loc(n), "index = one past the last statement that can precede a directive: at or after the end of the directive prologue")
+            else:
+                check.bad(R, key, hir.loc(n), "insertion index computed with rposition over %s with predicate %s" % (hir.describe(isrc) if isrc else "?", sorted(str(x) for x in pcs)))
+            continue
         calls_ = sorted(r[1].split("::")[-1] for r, p_ in os_ if r[0] == "call")
         if calls_ == ["len", "position"] and len(os_) == 2:
             # iter().position(|s| !s.can_precede_directive()).unwrap_or(list.len())
